@@ -179,6 +179,14 @@ def base_argv(case, files, out_zip, cfg):
         argv += ["--project_to_plane", o["project"]]
     if o.get("change_unit"):
         argv += ["--change_unit", o["change_unit"]]
+    if o.get("plot"):
+        # plotting happens before the result is saved: whatever the plot code does, the saved result must stay the same
+        pl = o["plot"]
+        argv += ["--serialize_plot", out_zip[:-4] + ".plot", "--plot_x_dimension", pl["x"], "--plot_mode", pl["mode"]]
+        if pl.get("pct") is not None:
+            argv += ["--plot_colormap_max_percentile", str(pl["pct"])]
+        if pl.get("cmin") is not None:
+            argv += ["--plot_colormap_min", repr(float(pl["cmin"]))]
     argv += ["--save_results", out_zip, "--no_warnings", "--silent", "-c", cfg]
     return argv
 
